@@ -339,7 +339,9 @@ def d5(rep, w):
             d = s_.get('d') or {}
             if d.get('p') and any(q[0][0] == 'call' and q[0][1] in mk for q in org.get(d['l'], ())) and any(isinstance(e, dict) and e.get('n') == 'source' for e in d['p']):
                 stores.append('source = ..')
-    ret_ok = all(q[0][0] == 'call' and q[0][1] in mk for q in org.get(0, ())) and bool(org.get(0))
+    # (an error token - "invalid number literal" - is another thing the function may answer with; it is not a number token at all)
+    errs = [bi for bi, t in f.calls() if (callee_name(t) or '').endswith('::error_token')]
+    ret_ok = all(q[0][0] == 'call' and (q[0][1] in mk or q[0][1] in errs) for q in org.get(0, ())) and bool(org.get(0))
     r.check(ret_ok and not edits and not stores, 'Scanner::number: the token returned is make_token\'s, unedited',
             'Scanner::number edits the token after make_token (%s) or returns another one: the text the parser converts is not the lexeme that was scanned'
             % (sorted(set(edits + stores)) or 'result does not come from make_token'), f.loc())
